@@ -207,7 +207,20 @@ func checkDoc(c *hx.Ctx, ci caseInfo, kept [][]int, isSub []bool) {
 					pi, p.H, i, f.T, f.Y, f.H, bandPt)
 			})
 		}
-		// 3. removed => repeats at that position across pages, or is a page-number pattern
+		// 3. removed => repeats at that position across pages, or is a page-number pattern.
+		// legitTop/legitBot: some line in that band of THIS page repeats at its position on
+		// another page or is a page-number pattern. Where that is not so, no header/footer
+		// can have been found on this page and the band must come back untouched, on
+		// character-level pages too (finer key: the page carries no repeated line at all).
+		legitTop, legitBot := false, false
+		for _, w := range v.units {
+			if w.top && (isPageNumberText(w.text) || repeats(views, pi, w, true, 10, 20)) {
+				legitTop = true
+			}
+			if w.bot && (isPageNumberText(w.text) || repeats(views, pi, w, false, 10, 20)) {
+				legitBot = true
+			}
+		}
 		for _, u := range v.units {
 			nrem := 0
 			for _, m := range u.members {
@@ -224,9 +237,14 @@ func checkDoc(c *hx.Ctx, ci caseInfo, kept [][]int, isSub []bool) {
 			if v.charLevel {
 				key = "C11/charlevel-position-only" // F8: character-level pages are filtered by position alone
 			}
+			detail := ""
+			if !(u.top && legitTop) && !(u.bot && legitBot) {
+				key = "C11/removed-where-nothing-repeats"
+				detail = "; no line in that band of this page repeats on another page or is a page number (a cover page / chapter opener without the running line)"
+			}
 			c.Check(key, ok, ci, func() string {
-				return fmt.Sprintf("page %d: %q (x=%d) was removed from the margin band but its text occurs on no other page at that position and is not a page-number pattern",
-					pi, u.text, u.x)
+				return fmt.Sprintf("page %d: %q (x=%d) was removed from the margin band but its text occurs on no other page at that position and is not a page-number pattern%s",
+					pi, u.text, u.x, detail)
 			})
 		}
 	}
